@@ -1,0 +1,240 @@
+//! Verification hooks for the priority property of one scheduling decision: a recorder of the task
+//! batches (`create_task_batches`) and of the scheduler MILP exactly as `run_scheduling_solver` hands
+//! it to the LP solver (variables with weights, rows with coefficients, the values of the solution).
+//!
+//! The production code calls the functions below from single statements guarded by
+//! `#[cfg(it4innovations_hyperqueue_verif)]`; nothing in here influences what the scheduler does.
+//! Recording is only active between `begin()` and `on_solution()/end()` of a scheduling solve, so the
+//! other users of `LpSolver` (gap computation, the worker's group solver) are not recorded.
+use std::cell::{Cell, RefCell};
+
+use crate::internal::scheduler::TaskBatch;
+use crate::internal::solver::ConstraintType;
+
+#[derive(Debug, Clone, PartialEq, Eq)]
+pub struct RecCut {
+    pub size: u32,
+    /// (blocking request class, Some(size) | None = its limit was reached)
+    pub blockers: Vec<(u32, Option<u32>)>,
+}
+
+#[derive(Debug, Clone, PartialEq, Eq)]
+pub struct RecBatch {
+    pub rq: u32,
+    pub size: u32,
+    pub limit: u32,
+    pub limit_reached: bool,
+    pub is_blocker: bool,
+    pub cuts: Vec<RecCut>,
+}
+
+#[derive(Debug, Clone, Copy, PartialEq, Eq, PartialOrd, Ord)]
+pub enum VarKind {
+    /// placement count of (worker, request class, variant)
+    Placement { worker: u32, rq: u32, variant: u32 },
+    /// reservation of a worker for a blocking class that cannot start there now
+    Reservation { worker: u32, rq: u32 },
+    /// B(rq, size): 0 only if at least `size` tasks of `rq` are scheduled
+    Blocker { rq: u32, size: u32 },
+    MinUtilization { worker: u32 },
+    /// not named by a hook call (multi-node variables)
+    Other,
+}
+
+#[derive(Debug, Clone)]
+pub struct RecVar {
+    pub index: usize,
+    pub weight: f64,
+    /// 0 = continuous [min,max], 1 = bool, 2 = nat
+    pub domain: u8,
+    pub kind: VarKind,
+}
+
+#[derive(Debug, Clone)]
+pub struct RecRow {
+    /// 0 = Min (>=), 1 = Max (<=), 2 = Eq
+    pub ty: u8,
+    pub bound: f64,
+    pub terms: Vec<(usize, f64)>,
+}
+
+#[derive(Debug, Clone, Default)]
+pub struct RecMilp {
+    pub vars: Vec<RecVar>,
+    pub rows: Vec<RecRow>,
+    /// value of every variable in the returned solution (empty when the solve returned nothing)
+    pub values: Vec<f64>,
+    pub is_optimal: Option<bool>,
+}
+
+#[derive(Debug, Clone)]
+pub enum Rec {
+    Batches(Vec<RecBatch>),
+    Milp(RecMilp),
+}
+
+thread_local! {
+    static ACTIVE: Cell<bool> = const { Cell::new(false) };
+    static CUR: RefCell<RecMilp> = RefCell::new(RecMilp::default());
+    static LOG: RefCell<Vec<Rec>> = const { RefCell::new(Vec::new()) };
+}
+
+pub fn take() -> Vec<Rec> {
+    LOG.with(|l| std::mem::take(&mut *l.borrow_mut()))
+}
+
+pub(crate) fn on_batches(batches: &[TaskBatch]) {
+    let rec = batches
+        .iter()
+        .map(|b| RecBatch {
+            rq: b.resource_rq_id.as_num(),
+            size: b.size,
+            limit: b.limit,
+            limit_reached: b.limit_reached,
+            is_blocker: b.is_blocker,
+            cuts: b
+                .cuts
+                .iter()
+                .map(|c| RecCut {
+                    size: c.size,
+                    blockers: c.blockers.iter().map(|(r, s)| (r.as_num(), *s)).collect(),
+                })
+                .collect(),
+        })
+        .collect();
+    LOG.with(|l| l.borrow_mut().push(Rec::Batches(rec)));
+}
+
+/// start of `run_scheduling_solver`'s model building
+pub(crate) fn begin() {
+    ACTIVE.with(|a| a.set(true));
+    CUR.with(|c| *c.borrow_mut() = RecMilp::default());
+}
+
+/// end of the solve: `values` = all column values, or nothing when the solver returned no solution
+pub(crate) fn end(values: Option<(&[f64], bool)>) {
+    if !ACTIVE.with(|a| a.replace(false)) {
+        return;
+    }
+    let mut milp = CUR.with(|c| std::mem::take(&mut *c.borrow_mut()));
+    if let Some((values, is_optimal)) = values {
+        milp.values = values.to_vec();
+        milp.is_optimal = Some(is_optimal);
+    }
+    LOG.with(|l| l.borrow_mut().push(Rec::Milp(milp)));
+}
+
+/// a scheduling solve that returned before `end` was reached (no solution): close the record
+pub(crate) fn close_if_open() {
+    end(None)
+}
+
+pub(crate) fn on_var(index: usize, weight: f64, domain: u8) {
+    if !ACTIVE.with(|a| a.get()) {
+        return;
+    }
+    CUR.with(|c| {
+        c.borrow_mut().vars.push(RecVar {
+            index,
+            weight,
+            domain,
+            kind: VarKind::Other,
+        })
+    });
+}
+
+/// names the most recently created variable
+pub(crate) fn name_last(kind: VarKind) {
+    if !ACTIVE.with(|a| a.get()) {
+        return;
+    }
+    CUR.with(|c| {
+        if let Some(v) = c.borrow_mut().vars.last_mut() {
+            v.kind = kind;
+        }
+    });
+}
+
+pub(crate) fn on_row(ty: ConstraintType, bound: f64, terms: &[(usize, f64)]) {
+    if !ACTIVE.with(|a| a.get()) {
+        return;
+    }
+    let ty = match ty {
+        ConstraintType::Min => 0,
+        ConstraintType::Max => 1,
+        ConstraintType::Eq => 2,
+    };
+    CUR.with(|c| {
+        c.borrow_mut().rows.push(RecRow {
+            ty,
+            bound,
+            terms: terms.to_vec(),
+        })
+    });
+}
+
+pub(crate) fn is_active() -> bool {
+    ACTIVE.with(|a| a.get())
+}
+
+/// Pass-through used by `LpSolver::add_constraint`: records the row when a scheduling solve is being built.
+#[cfg(feature = "highs")]
+pub(crate) fn tap_row<I: Iterator<Item = (highs::Col, f64)>>(
+    ty: ConstraintType,
+    bound: f64,
+    terms: I,
+) -> itertools::Either<I, std::vec::IntoIter<(highs::Col, f64)>> {
+    if !is_active() {
+        return itertools::Either::Left(terms);
+    }
+    let terms: Vec<(highs::Col, f64)> = terms.collect();
+    let plain: Vec<(usize, f64)> = terms.iter().map(|(v, c)| (v.index(), *c)).collect();
+    on_row(ty, bound, &plain);
+    itertools::Either::Right(terms.into_iter())
+}
+
+/// Pass-through used by `LpSolver::add_*_variable`.
+#[cfg(feature = "highs")]
+pub(crate) fn tap_var(v: highs::Col, weight: f64, domain: u8) -> highs::Col {
+    on_var(v.index(), weight, domain);
+    v
+}
+
+/// One variant of a request class as the core's request map holds it.
+#[derive(Debug, Clone)]
+pub struct RecClassVariant {
+    pub n_nodes: u32,
+    pub min_time_ms: u64,
+    /// weight in 1/10000
+    pub weight: u64,
+    /// (resource id, amount in fractions | None = all)
+    pub entries: Vec<(u32, Option<u64>)>,
+}
+
+/// The request classes of the core in `ResourceRqId` order.
+pub fn classes(server: &crate::verif::server::VerifServer) -> Vec<Vec<RecClassVariant>> {
+    let core = server.core_ref.get();
+    core.get_resource_rq_map()
+        .iter()
+        .map(|rqv| {
+            rqv.requests()
+                .iter()
+                .map(|rq| RecClassVariant {
+                    n_nodes: rq.n_nodes(),
+                    min_time_ms: rq.min_time().as_millis() as u64,
+                    weight: (rq.weight().as_f64() * 10_000.0).round() as u64,
+                    entries: rq
+                        .entries()
+                        .iter()
+                        .map(|e| {
+                            (
+                                e.resource_id.as_num(),
+                                e.request.amount_or_none_if_all().map(|a| a.total_fractions()),
+                            )
+                        })
+                        .collect(),
+                })
+                .collect()
+        })
+        .collect()
+}
